@@ -2,6 +2,8 @@ import Lean.Data.Json
 import PV.Base.Crc32
 import PV.Base.B64
 import PV.Model.Pragma
+import PV.Model.Daemon
+import PV.DriverRun
 /-! One-JSON-object-in / one-JSON-object-out driver over the executable models. -/
 namespace PV.Driver
 open Lean
@@ -48,6 +50,15 @@ def handleE (j : Json) : Except String Json := do
       pure (n.toList, b))
     let r := PV.Pragma.scan (src.map Char.ofNat) opts
     pure (Json.mkObj [("ok", Json.arr (r.map (fun (n, b) => Json.arr #[Json.str (String.mk n), Json.bool b])).toArray)])
+  | "daemon-requests" =>
+    -- {"lines": [[code points], ...]} -> the stripped request payloads that must be answered, in order
+    let ls ← (← j.getObjVal? "lines").getArr?
+    let lines ← ls.toList.mapM (fun l => do pure ((← natsOf l).map Char.ofNat))
+    let r := PV.Daemon.requests lines
+    pure (Json.mkObj [("ok", Json.arr (r.map (fun l => jNats (l.map Char.toNat))).toArray)])
+  | "run-ic10" => do pure (Json.mkObj [("ok", ← PV.DriverRun.runIc10 j)])
+  | "run-src" => do pure (Json.mkObj [("ok", ← PV.DriverRun.runSrc j)])
+  | "equiv" => do pure (Json.mkObj [("ok", ← PV.DriverRun.equiv j)])
   | "directives" =>
     let src ← natsOf (← j.getObjVal? "src")
     let r := PV.Pragma.directives (src.map Char.ofNat)
